@@ -78,6 +78,20 @@ Proof.
   eexists. eexists. split; [vm_compute; reflexivity|discriminate].
 Qed.
 
+(* the same holds for the other edits after Delete (recorded findings delete-then-replace-same-visit
+   and delete-twice-same-visit): Replace after Delete overwrites the next, unvisited element and the
+   replacement is visited; a second Delete removes the next element and steps the loop backwards,
+   so an element is visited twice *)
+Example C14_replace_after_delete_refuted :
+  apply_list 10 (fun (x : N) (k : nat) => if N.eqb x 2 then [CDelete; CReplace 9%N] else []) [1; 2; 3; 4]%N 0 0
+  = Some ([1; 2; 9; 4]%N, [1; 9; 4]%N).
+Proof. vm_compute. reflexivity. Qed.
+
+Example C14_delete_twice_refuted :
+  exists vis fin, apply_list 10 (fun (x : N) (k : nat) => if N.eqb x 2 then [CDelete; CDelete] else []) [1; 2; 3; 4]%N 0 0
+  = Some (vis, fin) /\ vis <> [1; 2; 3; 4]%N /\ ~ In 3%N vis.
+Proof. eexists. eexists. split; [vm_compute; reflexivity|]. split; [discriminate|]. cbn. intuition discriminate. Qed.
+
 Example C14_nonvacuous :
   let script := fun (x : N) (k : nat) =>
     if N.eqb x 2 then [CInsertBefore 20%N; CInsertAfter 21%N; CInsertAfter 22%N; CReplace 23%N]
